@@ -40,6 +40,12 @@ var purityOwners = map[string][]string{
 }
 
 func init() {
+	// C18 ("every call returns exactly what it returns when run alone") rests on the same premise for every package:
+	// an object that remembers something between calls may be one that several goroutines reach (package-level tables
+	// such as the GenericGF instances are shared by every reader and writer).
+	for pkg := range purityOwners {
+		purityOwners[pkg] = append(purityOwners[pkg], "C18")
+	}
 	props := map[string]bool{}
 	for _, ps := range purityOwners {
 		for _, p := range ps {
